@@ -10,6 +10,7 @@ import Mathlib.Tactic.FieldSimp
 import Mathlib.Algebra.Order.Field.Basic
 import Mathlib.Tactic.Linarith
 import Mathlib.Tactic.NormNum
+import Mathlib.Tactic.Positivity
 import Mathlib.Algebra.Order.AbsoluteValue.Basic
 import Mathlib.Algebra.Order.Ring.Abs
 
@@ -198,14 +199,33 @@ theorem inverse_left_of_reduced (eps : K) (a : M4 K) (s : GJ K) (h : inverseGJ e
     (hid : s.this = M4.identity) : s.inv.compose a = M4.identity := by
   rw [← inverse_invariant eps a s h, hid]
 
-/-- The guard of mat.rs:304: a determinant of magnitude at most `eps` is a panic, never a value. -/
-theorem inverse_singular_panics (eps : K) (a : M4 K) (h : ¬ eps < absS a.det) :
+/-- The guard predicate of mat.rs:303-315 (as of d46db54): `det² > ε² · Π|rowᵢ|²`. -/
+def GuardOk (eps : K) (a : M4 K) : Prop := eps * eps * a.scaleSqr < a.det * a.det
+
+/-- A matrix that fails the guard is a panic (debug profile), never a value. -/
+theorem inverse_singular_panics (eps : K) (a : M4 K) (h : ¬ GuardOk eps a) :
     ∃ m, inverse eps a = .panic m := by
   refine ⟨"inverse: singular or near-singular", ?_⟩
+  unfold GuardOk at h
   simp only [inverse, inverseGJ, if_neg h]
 
-example : ¬ ((0 : ℚ) < absS (scale (⟨1, 0, 1⟩ : V3 ℚ)).det) := by decide +kernel
+example : ¬ GuardOk (1 / 8388608 : ℚ) (scale (⟨1, 0, 1⟩ : V3 ℚ)) := by unfold GuardOk; decide +kernel
 
+/-- `Π|rowᵢ|²` is non-negative, so the guard can only pass when `det ≠ 0` — for *every* `eps`. -/
+theorem scaleSqr_nonneg (a : M4 K) : 0 ≤ a.scaleSqr := by
+  have h (v : V4 K) : 0 ≤ dot4 v v := by
+    simp only [dot4]
+    nlinarith [mul_self_nonneg v.x, mul_self_nonneg v.y, mul_self_nonneg v.z, mul_self_nonneg v.w]
+  unfold M4.scaleSqr
+  have := h a.r0; have := h a.r1; have := h a.r2; have := h a.r3
+  positivity
+
+theorem guard_det_ne_zero (eps : K) (a : M4 K) (hg : GuardOk eps a) : a.det ≠ 0 := by
+  intro h0
+  unfold GuardOk at hg
+  rw [h0, mul_zero] at hg
+  have := mul_nonneg (mul_self_nonneg eps) (scaleSqr_nonneg a)
+  exact absurd hg (not_lt.mpr this)
 
 /-! ### a left inverse of a square matrix is a right inverse -/
 
@@ -540,32 +560,27 @@ theorem reduces (a n : M4 K) (hd : a.det ≠ 0) :
   exact norm_all k1 a00 a11 a22 a33 t0 t1 t2 t3
 
 
-/-- **inverse_correct.** For every matrix whose determinant passes the guard (`|det| > eps ≥ 0`), and for
+/-- **inverse_correct.** For every matrix that passes the guard `det² > ε²·Π|rowᵢ|²` (any `ε`), and for
 every pivot sequence partial pivoting may choose (ties broken towards the last row, any number of row
 exchanges), `inverse` returns — without panicking — a matrix that composed with the original is the
 identity in both orders. -/
-theorem inverse_correct (eps : K) (a : M4 K) (heps : 0 ≤ eps) (hg : eps < absS a.det) :
+theorem inverse_correct (eps : K) (a : M4 K) (hg : GuardOk eps a) :
     ∃ b, inverse eps a = .ok b ∧ b.compose a = M4.identity ∧ a.compose b = M4.identity := by
-  have hd : a.det ≠ 0 := by
-    intro h0
-    rw [h0, absS_eq_abs, abs_zero] at hg
-    exact absurd hg (not_lt.mpr heps)
+  have hd : a.det ≠ 0 := guard_det_ne_zero eps a hg
   obtain ⟨s, hs, hid⟩ := reduces a M4.identity hd
   have hgj : inverseGJ eps a = .ok s := by
+    unfold GuardOk at hg
     simp only [inverseGJ, if_pos hg]
     exact hs
   have hleft := inverse_left_of_reduced eps a s hgj hid
   exact ⟨s.inv, by simp only [inverse, hgj], hleft, right_inverse_of_left_inverse a s.inv hleft⟩
 
-example : (0 : ℚ) ≤ 1 / 8388608 ∧ (1 / 8388608 : ℚ) < absS (rotateZ (1 : ℚ) 0).det := by
-  constructor
-  · norm_num
-  · decide +kernel
+example : GuardOk (1 / 8388608 : ℚ) (rotateZ (1 : ℚ) 0) := by unfold GuardOk; decide +kernel
 
-/-- The outcome of `inverse` is decided by the guard alone: a value (the inverse) when `|det| > eps`,
+/-- The outcome of `inverse` is decided by the guard alone: a value (the inverse) when it passes,
 a panic otherwise — never a wrong matrix and never a non-finite one. -/
-theorem inverse_ok_iff (eps : K) (a : M4 K) (heps : 0 ≤ eps) :
-    (∃ b, inverse eps a = .ok b) ↔ eps < absS a.det := by
+theorem inverse_ok_iff (eps : K) (a : M4 K) :
+    (∃ b, inverse eps a = .ok b) ↔ GuardOk eps a := by
   constructor
   · rintro ⟨b, hb⟩
     by_contra hg
@@ -573,27 +588,73 @@ theorem inverse_ok_iff (eps : K) (a : M4 K) (heps : 0 ≤ eps) :
     rw [hm] at hb
     cases hb
   · intro hg
-    obtain ⟨b, hb, _⟩ := inverse_correct eps a heps hg
+    obtain ⟨b, hb, _⟩ := inverse_correct eps a hg
     exact ⟨b, hb⟩
 
 /-- The inverse is the classical one: `adj(A) / det(A)`. -/
-theorem inverse_eq_adjugate (eps : K) (a b : M4 K) (heps : 0 ≤ eps) (h : inverse eps a = .ok b) :
+theorem inverse_eq_adjugate (eps : K) (a b : M4 K) (h : inverse eps a = .ok b) :
     b = smulM (1 / a.det) (Spec.Mat.adj4 a) := by
-  have hg : eps < absS a.det := (inverse_ok_iff eps a heps).mp ⟨b, h⟩
-  obtain ⟨b', hb', hl, _⟩ := inverse_correct eps a heps hg
+  have hg : GuardOk eps a := (inverse_ok_iff eps a).mp ⟨b, h⟩
+  obtain ⟨b', hb', hl, _⟩ := inverse_correct eps a hg
   rw [h] at hb'
   injection hb' with hb'
   subst hb'
-  have hd : a.det ≠ 0 := by
-    intro h0
-    rw [h0, absS_eq_abs, abs_zero] at hg
-    exact absurd hg (not_lt.mpr heps)
+  have hd : a.det ≠ 0 := guard_det_ne_zero eps a hg
   have hac : a.compose (smulM (1 / a.det) (Spec.Mat.adj4 a)) = M4.identity := by
     rw [compose_smulM, compose_adj, smulM_smulM, one_div, inv_mul_cancel₀ hd, smulM_one]
   calc b = b.compose M4.identity := (compose_identity b).symm
     _ = b.compose (a.compose (smulM (1 / a.det) (Spec.Mat.adj4 a))) := by rw [hac]
     _ = (b.compose a).compose (smulM (1 / a.det) (Spec.Mat.adj4 a)) := (compose_assoc _ _ _).symm
     _ = smulM (1 / a.det) (Spec.Mat.adj4 a) := by rw [hl, identity_compose]
+
+/-- The guard is scale invariant where it matters (D18, fixed in d46db54): a uniform scaling by any `s ≠ 0`,
+however small, passes it as soon as `ε² < 1`, and is therefore inverted. (The guard before the fix,
+`|det| > ε`, refused `scale(0.004)`: witness in corpus/C09.) -/
+theorem guard_accepts_uniform_scale (eps s : K) (he : eps * eps < 1) (hs : s ≠ 0) :
+    GuardOk eps (scale ⟨s, s, s⟩) := by
+  unfold GuardOk
+  simp only [scale, M4.scaleSqr, M4.det, dot4, V4.get]
+  have h6 : 0 < s * s * s * (s * s * s) := mul_self_pos.mpr (mul_ne_zero (mul_ne_zero hs hs) hs)
+  nlinarith [h6]
+
+theorem inverse_accepts_uniform_scale (eps s : K) (he : eps * eps < 1) (hs : s ≠ 0) :
+    ∃ b, inverse eps (scale ⟨s, s, s⟩) = .ok b ∧ b.compose (scale ⟨s, s, s⟩) = M4.identity ∧
+      (scale ⟨s, s, s⟩).compose b = M4.identity :=
+  inverse_correct eps _ (guard_accepts_uniform_scale eps s he hs)
+
+example : (1 / 8388608 : ℚ) * (1 / 8388608) < 1 ∧ (1 / 250 : ℚ) ≠ 0 := by norm_num
+
+/-- More generally the guard is invariant under rescaling the whole linear part and under permuting rows:
+it only sees the ratio `|det| / Π|rowᵢ|` (Hadamard ratio), which is 1 for every matrix with orthogonal rows. -/
+theorem guard_orthogonal_rows (eps : K) (a : M4 K) (he : eps * eps < 1)
+    (h01 : dot4 a.r0 a.r1 = 0) (h02 : dot4 a.r0 a.r2 = 0) (h03 : dot4 a.r0 a.r3 = 0)
+    (h12 : dot4 a.r1 a.r2 = 0) (h13 : dot4 a.r1 a.r3 = 0) (h23 : dot4 a.r2 a.r3 = 0)
+    (hd : a.det ≠ 0) : GuardOk eps a := by
+  -- det² = det(A·Aᵀ) = Π|rowᵢ|² when the rows are orthogonal (Gram determinant of a diagonal matrix)
+  have hgram : a.det * a.det = a.scaleSqr := by
+    have e1 : (a.compose a.transpose).det = a.det * a.det := by
+      rw [det_mul]
+      congr 1
+      obtain ⟨⟨a00, a01, a02, a03⟩, ⟨a10, a11, a12, a13⟩, ⟨a20, a21, a22, a23⟩, ⟨a30, a31, a32, a33⟩⟩ := a
+      simp only [M4.det, V4.get, M4.transpose, M4.col]; ring
+    rw [← e1]
+    obtain ⟨⟨a00, a01, a02, a03⟩, ⟨a10, a11, a12, a13⟩, ⟨a20, a21, a22, a23⟩, ⟨a30, a31, a32, a33⟩⟩ := a
+    simp only [dot4] at h01 h02 h03 h12 h13 h23
+    simp only [M4.compose, composeRow4, dot4, M4.col, V4.get, M4.transpose, M4.det, M4.scaleSqr]
+    have g01 : 0 + a00 * a10 + a01 * a11 + a02 * a12 + a03 * a13 = 0 := h01
+    have g10 : 0 + a10 * a00 + a11 * a01 + a12 * a02 + a13 * a03 = 0 := by linear_combination h01
+    have g20 : 0 + a20 * a00 + a21 * a01 + a22 * a02 + a23 * a03 = 0 := by linear_combination h02
+    have g30 : 0 + a30 * a00 + a31 * a01 + a32 * a02 + a33 * a03 = 0 := by linear_combination h03
+    have g21 : 0 + a20 * a10 + a21 * a11 + a22 * a12 + a23 * a13 = 0 := by linear_combination h12
+    have g31 : 0 + a30 * a10 + a31 * a11 + a32 * a12 + a33 * a13 = 0 := by linear_combination h13
+    have g32 : 0 + a30 * a20 + a31 * a21 + a32 * a22 + a33 * a23 = 0 := by linear_combination h23
+    rw [h01, h02, h03, h12, h13, h23, g10, g20, g30, g21, g31, g32]
+    ring
+  unfold GuardOk
+  rw [hgram]
+  have hpos : 0 < a.scaleSqr := by
+    rw [← hgram]; exact mul_self_pos.mpr hd
+  nlinarith
 
 end Field
 
